@@ -46,6 +46,7 @@ REQUIRED_REACH = [
     "probe:torn_utf8_through_file_entry",
     "probe:token_soup",
     "probe:include_graph",
+    "probe:command_line_define_value",
 ]
 
 HARD_BUDGET = 20_000_000
@@ -122,6 +123,13 @@ SOUP_TOKENS += [".macro fill(n) {\n .db n\n fill(n + 1)\n fill(n + 1)\n}\nfill(0
 SOUP_TOKENS += [".struct h {", ".struct h { id }", ".struct h { bytes id }", ".struct h { byte byte id }", ".struct h { byte id", ".struct h {\n byte id\n word w\n}", ".struct h { 1 }", ".struct h { nop }", ".struct h { .db }", ".struct { }", ".struct h { }", ".struct h {\n ; c\n}", ".struct h { byte }", ".struct h { word id, }", ".istruct h {", ".istruct h { id = 1 }", ".istruct h { 1 }"]
 # names re-bound from their own value (label, ':=' variable, macro argument, incbin size symbol, plain symbol)
 SOUP_TOKENS += ["lbl:\nlbl = lbl + 1", "c := 0\nc = c + 1", "c := 0\nc := c + 1", ".macro emit(n) {\n n = n + 1\n .db n\n}\nemit(1)", "a = 1\na = a + 1", "a = a + 1", "a = b\nb = a", "a = b + 1\nb = a + 1\n.db a", "a := a", ".incbin 'zoo.bin'\nzoo_bin__size = zoo_bin__size + 1", "l1:\nl1:\n", "l2:\nl2 = 5\n.dw l2", "{\n x = x + 1\n}", ".scope s {\n s = s + 1\n}", ".for k := 0, 3 {\n k = k + 1\n}", ".for k := 0, 3 {\n k := k - 1\n}"]
+
+
+# positions in banks the active bus does not map (below, between and above the mapped ones), negative and oversized addresses
+SOUP_TOKENS += ["*=0x008000", "*=0x708000", "*=0x7F0000", "*=0-1", "*=0 - 0x10000", "@=0x7F0000", "@=0-1", "*=0xFFFFFF\n.dl 1", "*=0x1000000", "*=0x400000", "*=0xC00000", "*=0x3F8000\n.db 1", "*=0x000000\n.db 1", ".map identifier=9 bank_range=0xF0,0xFF addr_range=0x8000,0xFFFF mask=0x8000 mirror_bank_range=0x70,0x7F\n*=0x108000\n.db 1"]
+
+# odd spellings of -D values given to the command line (numbers in other notations, expressions, junk)
+CLI_DEFINE_VALUES = ["1", "0x10", "-5", "$8000", "%1010", "1.5", "'A'", "\"A\"", "", " ", "1 +", "(", "((1)", "1e5", "0b", "0x", "#1", "A", "X", "X+1", "0x8000,1", "1;2", "/*", "{", "é", "\\", "1\n2", "0" * 400, "9" * 400, "~1", "1<<70", "@", "`"]
 
 
 def lexical_bucket(text: bytes, at: int) -> str:
@@ -355,7 +363,7 @@ def soup_workload(rng: random.Random) -> dict[str, Any]:
             files[f"g{i}.s"] = ("\n".join(lines) + "\n").encode()
             roles[f"g{i}.s"] = "include"
         files["main.s"] = (text + ("\n" if text else "") + ".include 'g0.s'\n" + rng.choice(["", "nop\n", ".db 2\n"])).encode("utf-8")
-    return {"files": files, "roles": roles, "mapping": "low", "target": "main.s", "name": "soup"}
+    return {"files": files, "roles": roles, "mapping": rng.choice(["low", "low", "low", "high", "low2"]), "target": "main.s", "name": "soup"}
 
 
 def gen_case(cseed: int, tier: str) -> dict[str, Any]:
@@ -373,8 +381,12 @@ def gen_case(cseed: int, tier: str) -> dict[str, Any]:
     return {"type": "base", "seed": cseed, "workload": wl}
 
 
+def cli_defines_case() -> dict[str, Any]:
+    return {"type": "base", "seed": 96, "workload": {"cli_defines": True, "name": "cli_defines", "files": {"main.s": b"*=0x008000\n.db 1\n.if X {\n    nop\n}\n"}, "roles": {"main.s": "source"}, "mapping": "low", "target": "main.s"}}
+
+
 def plan(tier: str) -> dict[str, Any]:
-    fixed = [{"type": "base", "seed": 1, "workload": zoo_workload()}, {"type": "base", "seed": 99, "workload": zoo_table_workload()}, {"type": "base", "seed": 98, "workload": zoo_ips_workload()}, {"type": "base", "seed": 97, "workload": chain_workload(45)}] + [{"type": "base", "seed": 2 + i, "workload": wl} for i, wl in enumerate(sample_workloads())]
+    fixed = [cli_defines_case()] + [{"type": "base", "seed": 1, "workload": zoo_workload()}, {"type": "base", "seed": 99, "workload": zoo_table_workload()}, {"type": "base", "seed": 98, "workload": zoo_ips_workload()}, {"type": "base", "seed": 97, "workload": chain_workload(45)}] + [{"type": "base", "seed": 2 + i, "workload": wl} for i, wl in enumerate(sample_workloads())]
     return {"fixed": fixed, "seeded": 56 if tier == "quick" else 0, "chunk": 1, "wall_cap_s": 240, "minimise_s": 40}
 
 
@@ -460,7 +472,11 @@ def env_knobs(case: dict[str, Any]) -> dict[str, Any]:
     return dict(ENV_KNOBS[k % len(ENV_KNOBS)]) if isinstance(k, int) else {}
 
 
-def make_spec(entry: str, mapping: str, budget: int, abs_paths: bool = False) -> dict[str, Any]:
+def make_spec(entry: str, mapping: str, budget: int, abs_paths: bool = False, case: dict[str, Any] | None = None) -> dict[str, Any]:
+    if entry == "cli":
+        c = case or {}
+        fmt = c.get("cli_format", "ips")
+        return {"entry": "cli", "src": "main.s", "out": "out." + fmt, "format": fmt, "mapping": mapping, "defines": [["X", c.get("cli_define", "1")]], "budget": budget, "range_guard": True}
     if entry == "string":
         return {"entry": "string", "src": "main.s", "rom": mapping, "budget": budget, "range_guard": True, "abs_paths": abs_paths}
     return {"entry": "patch", "src": "main.s", "out": "out.ips", "mapping": mapping, "budget": budget, "range_guard": True, "abs_paths": abs_paths}
@@ -475,9 +491,12 @@ def run_single(case: dict[str, Any], stats: Stats) -> list[Violation]:
     files[target] = faulted
     roles = dict(wl["roles"])
     roles["out.ips"] = "out_ips"
+    roles["out.sfc"] = "out_sfc"
     entry = case["entry"]
+    if entry == "cli":
+        stats.bump("probe:command_line_define_value")
     e0 = int(case.get("e0") or 50_000)
-    spec = make_spec(entry, wl["mapping"], budget1(e0), bool(case.get("abs_paths")))
+    spec = make_spec(entry, wl["mapping"], budget1(e0), bool(case.get("abs_paths")), case)
     try:
         o = entries.execute_one(files, roles, spec, env_knobs(case), [], mem_bytes=MEM_LIMIT, cpu_s=CPU_STAGE1_S)
     except core.ChildCpuExceeded:
@@ -516,7 +535,7 @@ def run_single(case: dict[str, Any], stats: Stats) -> list[Violation]:
     if o["kind"] != "timeout" and not mem:
         return []
     # over the first-stage budget: confirm under the hard budget
-    spec2 = make_spec(entry, wl["mapping"], HARD_BUDGET, bool(case.get("abs_paths")))
+    spec2 = make_spec(entry, wl["mapping"], HARD_BUDGET, bool(case.get("abs_paths")), case)
     try:
         o2 = entries.execute_one(files, roles, spec2, env_knobs(case), [], mem_bytes=MEM_LIMIT, wall_s=900, cpu_s=CPU_STAGE2_S)
     except core.ChildCpuExceeded:
@@ -540,6 +559,9 @@ def run_single(case: dict[str, Any], stats: Stats) -> list[Violation]:
     tail = text[-60:].replace("\n", "\\n")
     end_bucket = lexical_bucket(faulted, max(0, len(faulted) - 1)) if faulted else "empty"
     sig = f"{entry}:ends_in_{end_bucket}" + (":has_nul" if b"\0" in faulted else "") + (":non_ascii" if any(b > 127 for b in faulted) else "") + (":cpu" if o2.get("cpu") else "") + (":blocked" if o2.get("blocked") else "")
+    if entry == "cli":
+        sig = "cli:define_value"
+        what += f" (command line: -D X={case.get('cli_define')!r} -f {case.get('cli_format')})"
     return [
         Violation(
             "non_termination",
@@ -554,6 +576,12 @@ def run_single(case: dict[str, Any], stats: Stats) -> list[Violation]:
 def expand(case: dict[str, Any], stats: Stats) -> Iterator[dict[str, Any]]:
     wl = case["workload"]
     rng = core.substream(case["seed"], "faults")
+    if wl.get("cli_defines"):
+        # the command line is input too: a -D value in any spelling must be accepted or refused, in finite time
+        for v in CLI_DEFINE_VALUES:
+            for fmt in ("ips", "sfc"):
+                yield {"type": "single", "workload": wl, "faults": [], "entry": "cli", "e0": 50_000, "cli_define": v, "cli_format": fmt}
+        return
     if "soup_batch" in wl:
         for s in wl["soup_batch"]:
             yield {"type": "single", "workload": s, "faults": [], "entry": rng.choice(["string", "string", "patch"]), "e0": 50_000, "abs_paths": rng.random() < 0.3, "env_knob": rng.randrange(len(ENV_KNOBS)) if rng.random() < 0.6 else None}
